@@ -64,12 +64,30 @@ def op_setvar(name, spec, slot=0):
 
 # --- running a batch through vdrv ------------------------------------------------------------
 _bins = {}
+_TREE = ["asan"]       # the build the driver currently runs against
 
 
 def bins():
-    if not _bins:
-        _bins.update(build.ensure("asan"))
-    return _bins
+    t = _TREE[0]
+    if t not in _bins:
+        _bins[t] = build.ensure(t)
+    return _bins[t]
+
+
+class tree:
+    """with tree("gcc"): ... runs the enclosed batches / explorations against another build of the same sources"""
+    def __init__(self, name):
+        self.name = name
+
+    def __enter__(self):
+        self.old = _TREE[0]
+        _TREE[0] = self.name
+        bins()
+        return self
+
+    def __exit__(self, *a):
+        _TREE[0] = self.old
+        return False
 
 
 def scratch_dir():
@@ -89,7 +107,7 @@ def run_batch(cases, cpu_ms=2000, vdrv=None, env=None):
             for c in cases:
                 f.write(c.text())
         p = subprocess.run([vdrv, path, str(cpu_ms)], stdout=subprocess.PIPE, stderr=subprocess.PIPE,
-                           env=env or build.run_env("asan"))
+                           env=env or build.run_env(_TREE[0]))
         out = p.stdout.decode("utf-8", errors="replace").splitlines()
         res = []
         for line in out:
@@ -229,6 +247,8 @@ def _worker(wid):
         idx += 1
         if k % nw != wid:
             continue
+        if _TREE[0] != "asan" and isinstance(c.meta, dict):
+            c.meta["_tree"] = _TREE[0]
         buf.append(c)
         if len(buf) >= chunk:
             flush()
@@ -342,11 +362,18 @@ def load_known(prop):
     return known
 
 
+def explore_gcc(name, gen, check, **kw):
+    """the same exploration against the gcc -O2 build (no sanitizer): what undefined behaviour turns into depends on the compiler"""
+    with tree("gcc"):
+        return explore(name + "-gcc", gen, check, **kw)
+
+
 def confirm(v, r, check, cpu_ms=20000):
     """Replay one violating case alone in a fresh process, twice; the same key must be reported both times."""
     ok = 0
     for _ in range(2):
-        rr = run_batch([v.case], cpu_ms)
+        with tree((v.case.meta or {}).get("_tree", "asan") if isinstance(v.case.meta, dict) else "asan"):
+            rr = run_batch([v.case], cpu_ms)
         if not rr:
             continue
         try:
